@@ -169,7 +169,7 @@ func C14(sp *spec.Spec, ex *rt.Exchange) *Verdict {
 		// operation for both (the last one): the operation found for the request may be another method's
 		claims := routeClaims(sp)
 		for ri, r := range m.HTTP.Routes {
-			if claims[r.Verb+" "+normPath(cases.FullPath(sp, sv, m, ri))] > 1 {
+			if claims[claimKey(r.Verb, cases.FullPath(sp, sv, m, ri))] > 1 {
 				v.Inconclusive = "route declared by several methods of the design"
 				return v
 			}
